@@ -43,5 +43,16 @@ pub struct
 //@ head
 #[derive(Clone)]
 //@ end
+// Display for Edge (used only to build error messages): outside verification, trusted not to panic (A6)
+#[verifier::external]
+impl<T: Display + PartialOrd + Send + Sync, A> std::fmt::Display for Edge<T, A> {
+//@ extract fn src/edge.rs fmt nth=2
+//@ rewrite
+f: &mut fmt::Formatter<'_>) -> fmt::Result
+//@ with
+f: &mut std::fmt::Formatter<'_>) -> std::fmt::Result
+//@ end
+}
+
 //@ extract struct src/graph/mod.rs Graph pubfields
 //@ end
